@@ -26,10 +26,10 @@ t("C01", "clean-before-paint", TS, "\tt.writeString(str)\n\tt.cx += width\n\tt.c
 # ---------------------------------------------------------------- C02
 t("C02", "xterm-mouse-consumes-then-partial", TS, "\t\t\tfor i >= 0 {\n\t\t\t\t_, _ = buf.ReadByte()\n\t\t\t\ti--\n\t\t\t}\n\t\t\t*evs = append(*evs, t.buildMouseEvent(x, y, btn))\n\t\t\treturn true, true\n\t\t}\n\t}\n\treturn true, false", "\t\t\tfor i >= 0 {\n\t\t\t\t_, _ = buf.ReadByte()\n\t\t\t\ti--\n\t\t\t}\n\t\t\t*evs = append(*evs, t.buildMouseEvent(x, y, btn))\n\t\t\treturn true, false\n\t\t}\n\t}\n\treturn true, false", "parseXtermMouse:all-or-nothing")
 t("C02", "raw-delivery-does-not-consume", TS, "\t\t\tby, _ := buf.ReadByte()\n", "\t\t\tby := b[0]\n", "every-cycle-progresses")
-t("C02", "wait-ignores-expiry", TS, "\t\tif partials == 0 || expire {", "\t\tif partials == 0 {", "collect:exit#2")
+t("C02", "wait-ignores-expiry", TS, "\t\tif partials == 0 || expire {\n\t\t\tif b[0] == '\\x1b' {", "\t\tif partials == 0 {\n\t\t\tif b[0] == '\\x1b' {", "collect:exit#2")
 t("C02", "clipboard-trims-from-buffer-end", TS, "b = b[:i] // the payload ends before the BEL", "b = b[:len(b)-1]", "C02-R5")
 t("C02", "clipboard-skips-unchecked-prefix", TS, "\tif !bytes.HasPrefix(b, prefix) {\n\t\treturn false, false\n\t}\n\tb = b[len(prefix):]", "\tb = b[len(prefix):]", "C02-R6")
-t("C02", "focus-partial-not-counted", TS, "\t\tif part, comp := t.parseFocus(buf, &res); comp {\n\t\t\tcontinue\n\t\t} else if part {\n\t\t\tpartials++\n\t\t}", "\t\tif _, comp := t.parseFocus(buf, &res); comp {\n\t\t\tcontinue\n\t\t}", "parseFocus:partial-counted")
+t("C02", "focus-partial-not-counted", TS, "\t\t\tif part, comp := t.parseFocus(buf, &res); comp {\n\t\t\t\tcontinue\n\t\t\t} else if part {\n\t\t\t\tpartials++\n\t\t\t}", "\t\t\tif _, comp := t.parseFocus(buf, &res); comp {\n\t\t\t\tcontinue\n\t\t\t}", "parseFocus:partial-counted")
 t("C02", "focus-consumes-before-deciding", TS, "\t\tcase 1:\n\t\t\tif b[i] != '[' {\n\t\t\t\treturn false, false\n\t\t\t}\n\t\t\tstate = 2\n\t\tcase 2:\n\t\t\tif b[i] != 'I'", "\t\tcase 1:\n\t\t\tif b[i] != '[' {\n\t\t\t\treturn false, false\n\t\t\t}\n\t\t\t_, _ = buf.ReadByte()\n\t\t\tstate = 2\n\t\tcase 2:\n\t\t\tif b[i] != 'I'", "parseFocus:all-or-nothing")
 t("C02", "function-key-complete-without-consuming", TS, "\t\t\tfor i := 0; i < len(esc); i++ {\n\t\t\t\t_, _ = buf.ReadByte()\n\t\t\t}\n\t\t\treturn true, true", "\t\t\treturn true, true", "parseFunctionKey:complete-consumes")
 
@@ -46,7 +46,7 @@ t("C03", "entry-key-prefix-conflict", "terminfo/a/ansi/term.go", "\t\tKeyHome:  
 t("C04", "keypad-not-left", TS, "\tt.TPuts(ti.ExitKeypad)\n", "", "pair:keypad")
 t("C04", "mouse-off-after-stop", TS, "\tt.enableMouse(0)\n\tt.enablePasting(false)\n\tt.disableFocusReporting()\n\n\t_ = t.tty.Stop()", "\tt.enablePasting(false)\n\tt.disableFocusReporting()\n\n\t_ = t.tty.Stop()\n\tt.enableMouse(0)", "pair:mouse")
 t("C04", "altscreen-exit-depends-on-title", TS, "\t\tt.TPuts(ti.ExitCA)\n", "\t\tif t.title != \"\" {\n\t\t\tt.TPuts(ti.ExitCA)\n\t\t}\n", "pair:alternate-screen")
-t("C04", "paste-flag-not-recorded", TS, "\tt.pasteEnabled = true\n\tt.enablePasting(true)", "\tt.enablePasting(true)", "EnablePaste:store+emit")
+t("C04", "paste-flag-not-recorded", TS, "\tt.pasteEnabled = true\n\tif t.running {\n\t\tt.enablePasting(true)\n\t}", "\tif t.running {\n\t\tt.enablePasting(true)\n\t}", "EnablePaste:store+emit")
 t("C04", "resize-callback-left-registered", TS, "\tt.tty.NotifyResize(nil)\n", "", "NotifyResize")
 t("C04", "suspend-closes-tty", TS, "func (t *tScreen) Suspend() error {\n\tt.disengage()\n", "func (t *tScreen) Suspend() error {\n\tt.disengage()\n\t_ = t.tty.Close()\n", "Close:only")
 t("C04", "resume-forgets-focus", TS, "\tif t.focusEnabled {\n\t\tt.enableFocusReporting()\n\t}\n", "", "engage:reapplies-focus")
@@ -99,7 +99,7 @@ t("C08", "clean-forgets-combining", CELL, "\t\t\tc.lastComb = c.currComb\n", "",
 t("C08", "fill-width-one", CELL, "\t\tc.width = width\n", "\t\t_ = width\n\t\tc.width = 1\n", "Fill:currMain-store")
 t("C08", "unlock-does-not-dirty", CELL, "\tc.lock = false\n\tcb.SetDirty(x, y, true)", "\tc.lock = false", "UnlockCell:force-dirty")
 t("C08", "background-none-not-merged", CELL, "\t\tif style.bg == ColorNone {\n\t\t\tstyle.bg = c.currStyle.bg\n\t\t}\n", "", "SetContent:ColorNone-merge:bg")
-t("C08", "width-changed-before-dirtying", CELL, "\t\tc.currComb = append([]rune{}, combc...)\n\n\t\tif c.currMain != mainc {\n\t\t\tc.width = runewidth.RuneWidth(mainc)\n\t\t}", "\t\tc.currComb = append([]rune{}, combc...)\n\n\t\tc.width = runewidth.RuneWidth(c.currMain)", "SetContent:currMain-store")
+t("C08", "width-changed-before-dirtying", CELL, "\t\tc.currComb = append([]rune{}, combc...)\n\n\t\tif c.currMain != mainc {\n\t\t\tc.width = runeCellWidth(mainc)\n\t\t}", "\t\tc.currComb = append([]rune{}, combc...)\n\n\t\tc.width = runeCellWidth(c.currMain)", "SetContent:currMain-store")
 
 # ---------------------------------------------------------------- C09
 t("C09", "control-runes-pass-getcontent", CELL, "width == 0 || mainc < ' ' {", "width == 0 {", "primary-rune-sanitised")
@@ -124,7 +124,7 @@ t("C10", "setcontent-wrapper-unlocked", "screen.go", "\tcells := b.GetCells()\n\
 t("C11", "rune-prefix-loop-exclusive", TS, "\tfor l := 1; l <= len(b); l++ {\n\t\tt.decoder.Reset()", "\tfor l := 1; l < len(b); l++ {\n\t\tt.decoder.Reset()", "prefix-loop")
 t("C11", "paste-end-not-registered", TS, "\t\tt.prepareKey(keyPasteStart, \"\\x1b[200~\")\n\t\tt.prepareKey(keyPasteEnd, \"\\x1b[201~\")", "\t\tt.prepareKey(keyPasteStart, \"\\x1b[200~\")", "branch#2")
 t("C11", "focus-polarity-swapped", TS, "NewEventFocus(b[i] == 'I')", "NewEventFocus(b[i] == 'O')", "parseFocus:I=in")
-t("C11", "focus-parser-behind-mouse", TS, "\t\tif part, comp := t.parseFocus(buf, &res); comp {\n\t\t\tcontinue\n\t\t} else if part {\n\t\t\tpartials++\n\t\t}\n\n\t\t// Only parse mouse records if this term claims to have\n\t\t// mouse support\n\n\t\tif t.ti.Mouse != \"\" {", "\t\t// Only parse mouse records if this term claims to have\n\t\t// mouse support\n\n\t\tif t.ti.Mouse != \"\" {\n\t\t\tif part, comp := t.parseFocus(buf, &res); comp {\n\t\t\t\tcontinue\n\t\t\t} else if part {\n\t\t\t\tpartials++\n\t\t\t}\n", "parseFocus:unconditional")
+t("C11", "focus-parser-behind-mouse", TS, "\t\tif partials == 0 || expire {\n\t\t\tif part, comp := t.parseFocus(buf, &res); comp {\n\t\t\t\tcontinue\n\t\t\t} else if part {\n\t\t\t\tpartials++\n\t\t\t}\n\t\t}\n", "\t\tif t.ti.Mouse != \"\" && (partials == 0 || expire) {\n\t\t\tif part, comp := t.parseFocus(buf, &res); comp {\n\t\t\t\tcontinue\n\t\t\t} else if part {\n\t\t\t\tpartials++\n\t\t\t}\n\t\t}\n", "parseFocus")
 t("C11", "paste-events-swapped", TS, "\t\t\tcase keyPasteStart:\n\t\t\t\t*evs = append(*evs, NewEventPaste(true))", "\t\t\tcase keyPasteStart:\n\t\t\t\t*evs = append(*evs, NewEventPaste(false))", "NewEventPaste")
 
 # ---------------------------------------------------------------- C12
@@ -201,7 +201,7 @@ t("C17", "acs-q-maps-to-vline", TS, "\t'q': RuneHLine,", "\t'q': RuneVLine,", "a
 t("C17", "acs-last-pair-dropped", TS, "\tfor len(acsstr) >= 2 {", "\tfor len(acsstr) > 2 {", "last-pair")
 t("C17", "candisplay-acs-needs-fallback-flag", TS, "\tif _, ok := t.acs[r]; ok {\n\t\treturn true\n\t}\n\tif !checkFallbacks {\n\t\treturn false\n\t}", "\tif !checkFallbacks {\n\t\treturn false\n\t}\n\tif _, ok := t.acs[r]; ok {\n\t\treturn true\n\t}", "acs-always")
 t("C17", "getencoding-without-lowercase", "encoding.go", "func GetEncoding(charset string) encoding.Encoding {\n\tcharset = strings.ToLower(charset)\n", "func GetEncoding(charset string) encoding.Encoding {\n", "same-normalisation")
-t("C17", "acs-glyph-without-exit", TS, "t.acs[r] = t.ti.EnterAcs + dstv + t.ti.ExitAcs", "t.acs[r] = t.ti.EnterAcs + dstv", "brackets")
+t("C17", "acs-glyph-without-exit", TS, "t.acs[r] = enter + dstv + exit", "t.acs[r] = enter + dstv\n\t\t\t_ = exit", "brackets")
 t("C17", "hline-constant-wrong-glyph", "runes.go", "\tRuneHLine    = '─'", "\tRuneHLine    = '━'", "glyph:RuneHLine")
 
 # ---------------------------------------------------------------- C18
